@@ -57,14 +57,14 @@ type lockAnalysis struct {
 	mutable  map[string]bool
 	fieldsOf map[string]bool // all "T.f" of guarded types
 
-	origin  map[ctxKey]ctxOrigin
-	work    []ctxKey
-	exit    map[ctxKey]lockState
-	inprog  map[ctxKey]bool
-	access  map[ssa.Instruction]*accessOb
-	lockOps []lockOpOb
-	blockOb []lockOpOb
-	pairing []lockOpOb
+	origin        map[ctxKey]ctxOrigin
+	work          []ctxKey
+	exit          map[ctxKey]lockState
+	inprog        map[ctxKey]bool
+	access        map[ssa.Instruction]*accessOb
+	lockOps       []lockOpOb
+	blockOb       []lockOpOb
+	pairing       []lockOpOb
 	funcsAnalysed map[*ssa.Function]bool
 	callSites     int
 	rootCache     map[*ssa.Function]bool
